@@ -1375,7 +1375,8 @@ def gen_simd_kernels(repo):
         body = re.sub(r'//[^\n]*', '', m.group(0))
         calls = re.findall(r'\b(_mm_\w+(?:::<\w+>)?|simd_utils::\w+|chunks_exact|remainder|next|sum|normalizer\.clip|normalizer\.precision)\(([^()]*(?:\([^()]*\)[^()]*)*)\)', body)
         sk = ' ; '.join('%s(%s)' % (c, ' '.join(a.split())) for c, a in calls)
-        out += '/-- %s: %s: every intrinsic / helper call with its arguments, in textual order -/\n' % (f1, fn)
+        sk += ' | ' + ' ; '.join(' '.join(x.split()) for x in re.findall(r'(let initial = [^;]*|let mut buf = [^;]*)', body))
+        out += '/-- %s: %s: every intrinsic / helper call with its arguments, in textual order, and the rounding constant -/\n' % (f1, fn)
         out += 'def u8x1_sse4_%s_skeleton : String := "%s"\n\n' % ('one_row' if fn.endswith('one_row') else 'four_rows', sk.replace('"', '\\"'))
     # two-channel 8-bit images (U8x2), SSE4.1: masks of both kernels, call sequences, the saturating final addition
     f2 = 'src/convolution/u8x2/sse4.rs'
@@ -1611,7 +1612,7 @@ def gen_simd_kernels(repo):
         if fn == 'hsum_epi32_avx':
             extra = ' | ' + ' '.join(re.search(r'const I: i32 = [^;]*', body).group(0).split())
         if fn.startswith('horiz'):
-            extra = ' | ' + ' ; '.join(' '.join(x.split()) for x in re.findall(r'(result_i32(?:x4\[i\])? \+= [^;]*)', body))
+            extra = ' | ' + ' ; '.join(' '.join(x.split()) for x in re.findall(r'(let initial = [^;]*|result_i32(?:x4\[i\])? \+= [^;]*)', body))
         out += '/-- %s: %s: every intrinsic / helper call with its arguments, in textual order -/\n' % (f1a, fn)
         out += 'def u8x1_avx2_%s_skeleton : String := "%s%s"\n\n' % (nm, sk.replace('"', '\\"'), extra.replace('"', '\\"'))
     # two-channel 8-bit images on AVX2, four-row kernel: two rows per 256-bit register; masks by halves, call sequence, set_dst_pixel
